@@ -135,7 +135,7 @@ def rust_str(s):
 
 # ---- sample field texts for the bounded stand-in (vwit C16): by deserializer, then by leaf type ---------------------
 SAMPLE_BY_DE = {
-    "deserialize_yesno": "yes", "deserialize_list": "a\nb", "deserialize_file_list": "*.c src/*", "deserialize_copyrights": "2020 A\n2021 B",
+    "deserialize_yesno": "yes", "deserialize_list": "a\nb", "deserialize_file_list": "*.c\nsrc/*", "deserialize_copyrights": "2020 A\n2021 B",
     "deserialize_string_chain": "a b", "deserialize_types": "deb", "deserialize_uris": "http://deb.example.org/debian", "deserialize_pathbuf": "/a/b",
     "deserialize_package_list": "foo deb utils optional arch=any", "deserialize_binaries": "foo bar", "deserialize_date": "2020-01-02",
     "deserialize_origin": "upstream, https://x.example/1", "deserialize_env": "LANG=\"C\"", "deserialize_version": "1.0-1",
@@ -175,6 +175,23 @@ def harness_table(structs):
             rows.append("(%s, %s, %s)" % (json.dumps(key), json.dumps(val), "true" if optional else "false"))
         out.append("    n += check::<%s::%s>(%s, &[%s])?;" % (tp, name, json.dumps("%s::%s" % (tp, name)), ", ".join(rows)))
     out += ["    Ok(n)", "}"]
+    out += ["/// the same rows by type path (used by the C20 stand-in to assemble documents)",
+            "pub fn table(name: &str) -> &'static [(&'static str, &'static str, bool)] {", "    match name {"]
+    for rel, crate, modpath, name, has_from, fields in structs:
+        tp = TYPE_PATH.get((crate, tuple(modpath)))
+        if tp is None:
+            continue
+        rows = []
+        for ident, fty, key, ser, de in fields:
+            leaf, optional = leaf_type(fty)
+            val = SAMPLE_BY_DE.get(de) if de else None
+            if val is None:
+                val = SAMPLE_BY_TYPE.get(leaf)
+            if val is None:
+                val = "x"
+            rows.append("(%s, %s, %s)" % (json.dumps(key), json.dumps(val), "true" if optional else "false"))
+        out.append("        %s => &[%s]," % (json.dumps("%s::%s" % (tp, name)), ", ".join(rows)))
+    out += ["        _ => &[],", "    }", "}"]
     return "\n".join(out) + "\n"
 
 def main():
